@@ -390,5 +390,6 @@ RULES = [
     ("C09.floor", rule_floor),
     ("C09.wqguard", lambda c, r: lfht.rule_wqguard(c, r, "C09.wqguard")),
     ("C09.emptywalk", lambda c, r: lfht.rule_emptywalk(c, r, "C09.emptywalk")),
+    ("C09.gc", lambda c, r: lfht.rule_gc(c, r, "C09.gc")),   # a shrink unlinks the level's bucket nodes before freeing it
 ]
 FLOORS = {"C09.pow2": 4}
